@@ -6,7 +6,7 @@ import vlib, gen_nb, nbcfg
 from vlib import enc, dec, enc_diff, canon, plain, exc_class
 from checks import c02
 
-THEOREMS = ['Nbdime.C01_roundtrip_partial', 'Nbdime.diffAt_sound', 'Nbdime.singleOutputs_sound', 'Nbdime.mimeBundle_sound',
+THEOREMS = ['Nbdime.C01_empty_diff_only_if_equal', 'Nbdime.C01_roundtrip_partial', 'Nbdime.diffAt_sound', 'Nbdime.singleOutputs_sound', 'Nbdime.mimeBundle_sound',
             'Nbdime.attachmentsDiff_sound', 'Nbdime.cfgSound_of_B', 'Nbdime.pinnedNbCfg_sound', 'Nbdime.exNbOracle_ok',
             'Nbdime.compat_pyEq', 'Nbdime.compat_ints'] + c02.THEOREMS + ['Nbdime.join_splitLines']
 
